@@ -159,6 +159,7 @@ type Exec struct {
 	uf map[string][]ufApp
 
 	lastClock *Term
+	SymClock  bool
 }
 
 type ufApp struct {
